@@ -232,7 +232,10 @@ pub fn run_c08(tier: Tier) -> i32 {
     let started = Instant::now();
     let rep = Reporter::new("C08");
     let ctx = C08Ctx { rep: &rep, searches: Default::default(), ref_nodes: Default::default(), mates_checked: Default::default(), positive_mate_reports: Default::default() };
-    let positions = c08_positions(tier);
+    let mut positions = c08_positions(tier);
+    if std::env::var("IVK_C08_ONLY_WINDOW").is_ok() {
+        positions.truncate(16); // debugging aid: only the window-independence family at full size
+    }
     let mut fams = Vec::new();
     // (1) fresh engine per position, depths 1..3 in sequence on that engine
     let t0 = Instant::now();
@@ -317,6 +320,57 @@ pub fn run_c08(tier: Tier) -> i32 {
         }
     });
     fams.push(json!({"family": "Bellman consistency V_d(P) = max -V_{d-1}(P.m) between engine searches", "positions": bell.len(), "equations_checked": bell_n.load(Ordering::Relaxed), "secs": t0.elapsed().as_secs_f64()}));
+    // (3b) window independence: the value of a search must not depend on what the sibling lines set
+    // the alpha-beta window to — V_d(P) must equal the maximum over single-move searchmoves searches.
+    // Needs no reference, so it runs on a much larger family (middlegame-stage material, STAGE9).
+    let t0 = Instant::now();
+    let stage = Stage9;
+    // number of positions (flips included); about 45% of the indices decode to a legal position
+    let want_positions: u64 = std::env::var("IVK_C08_WINDOW_POSITIONS").ok().and_then(|s| s.parse().ok()).unwrap_or(if tier == Tier::Quick { 8_000 } else { 400_000 });
+    let stride = (stage.len() * 9 / (want_positions * 10)).max(1) | 1;
+    let idxs: Vec<u64> = (0..(stage.len() / stride)).collect();
+    let win_n = AtomicU64::new(0);
+    let win_searches = AtomicU64::new(0);
+    par_map_chunk(&idxs, 16, |&i| {
+        let p = match stage.decode(i * stride) {
+            Some(p) => p,
+            None => return,
+        };
+        let legal = p.legal();
+        if legal.is_empty() {
+            return;
+        }
+        for p in [p.clone(), p.flip()] {
+            win_n.fetch_add(1, Ordering::Relaxed);
+            let mut sess = Session::new(false);
+            let d = 2usize;
+            let whole = search_depth(&mut sess, &p, &[], d, "");
+            let mut best: Option<i32> = None;
+            let mut ok = whole.problem.is_none();
+            let whole_cp = match whole.score {
+                Some(Score::Centipawn { score }) => Some(score),
+                _ => None,
+            };
+            if ok && whole_cp.is_some() {
+                for m in p.legal() {
+                    let o = search_depth(&mut sess, &p, &[], d, &format!(" searchmoves {}", m.uci()));
+                    win_searches.fetch_add(1, Ordering::Relaxed);
+                    match o.score {
+                        Some(Score::Centipawn { score }) => best = Some(best.map_or(score, |b: i32| b.max(score))),
+                        _ => {
+                            ok = false; // mate scores: distances, judged elsewhere
+                            break;
+                        }
+                    }
+                }
+                if ok && best != whole_cp {
+                    rep.report(format!("value_depends_on_the_search_window:depth{}", d), json!({"kind": "window", "fen": p.to_fen(), "depth": d, "whole_root": whole_cp, "max_over_single_move_searches": best, "bestmove": whole.best}));
+                }
+            }
+            sess.quit();
+        }
+    });
+    fams.push(json!({"family": "window independence on STAGE9 (sub-lattice) and flips, depth 2: V(P) == max over searchmoves-m searches", "positions": win_n.load(Ordering::Relaxed), "single_move_searches": win_searches.load(Ordering::Relaxed), "stride": stride, "secs": t0.elapsed().as_secs_f64()}));
     // (4) forced mates from retrograde tables
     let t0 = Instant::now();
     let max_n: i8 = if tier == Tier::Quick { 2 } else { 3 };
@@ -918,6 +972,26 @@ pub fn replay(id: &str, case: &Value) -> i32 {
     };
     let depth = case["depth"].as_u64().unwrap_or(1) as usize;
     match (id, kind) {
+        ("C08", "window") => {
+            let mut sess = Session::new(false);
+            let whole = search_depth(&mut sess, &p, &[], depth, "");
+            let mut best: Option<(i32, String)> = None;
+            for m in p.legal() {
+                let o = search_depth(&mut sess, &p, &[], depth, &format!(" searchmoves {}", m.uci()));
+                if let Some(Score::Centipawn { score }) = o.score {
+                    if best.as_ref().map_or(true, |b| score > b.0) {
+                        best = Some((score, m.uci()));
+                    }
+                }
+            }
+            sess.quit();
+            println!("whole root: {:?} best {:?}; max over single-move searches: {:?}", whole.score, whole.best, best);
+            if let (Some(Score::Centipawn { score }), Some((b, _))) = (whole.score, &best) {
+                if score != *b {
+                    rep.report("value_depends_on_the_search_window".to_string(), json!({"kind": "window", "fen": p.to_fen(), "depth": depth}));
+                }
+            }
+        }
         ("C08", "search") | ("C08", "mate") | ("C08", "bellman") => {
             let ctx = C08Ctx { rep: &rep, searches: Default::default(), ref_nodes: Default::default(), mates_checked: Default::default(), positive_mate_reports: Default::default() };
             let mut sess = Session::new(false);
